@@ -103,6 +103,12 @@ Destroy(n) ==
 \* d.destroy(streams=[u]): the same edit as u.disconnect(d), asked for at the other end
 DestroyFrom(d, u) == prog[d].kind # "sink" /\ Disconnect(u, d)
 
+\* d.destroy(streams=[]) / d.destroy(streams=()): an empty selection removes nothing (it is not "no selection")
+DestroyNone(d) ==
+    /\ edits < MaxEdits /\ d \in held /\ prog[d].kind # "sink" /\ prog[d].ups # <<>>
+    /\ edits' = edits + 1 /\ err' = FALSE
+    /\ UNCHANGED <<prog, nst, rc, cbs, dlog, elog, flushes, calls, failed, nfail, held, alive, pinned, downs>>
+
 \* the program forgets node n (del + gc.collect()); whatever is unreachable is collected
 DropRef(n) ==
     /\ edits < MaxEdits /\ n \in held /\ ~IsEntry(n)
@@ -117,7 +123,7 @@ TEmit == /\ calls < MaxEmits
 
 TNext == TEmit
          \/ \E u \in 1 .. Len(prog), d \in 1 .. Len(prog) : Connect(u, d) \/ Disconnect(u, d) \/ DestroyFrom(d, u)
-         \/ \E n \in 1 .. Len(prog) : Destroy(n) \/ DropRef(n)
+         \/ \E n \in 1 .. Len(prog) : Destroy(n) \/ DropRef(n) \/ DestroyNone(n)
 TSpec == TInit /\ [][TNext]_tvars2
 
 ----------------------------------------------------------------------------
